@@ -113,7 +113,7 @@ def build(rng):
         if rng.random() < 0.6:
             p._target["options"] = {k: (scalar(rng) if rng.random() < 0.8 else [scalar(rng) for _ in range(rng.randint(1, 3))]) for k in rng.sample(["shots", "cutoff_dim", "backend", "flag"], rng.randint(1, 3))}
     if rng.random() < 0.4:
-        p._type["name"] = rng.choice(["standard", "tdmx"])
+        p._type["name"] = rng.choice(["standard", "tdmx", "tdm"])
         if rng.random() < 0.6:
             p._type["options"] = {k: scalar(rng) for k in rng.sample(["copies", "temporal_modes", "mode"], rng.randint(1, 2))}
     for _ in range(rng.randint(0, 8)):
@@ -147,6 +147,20 @@ def build(rng):
         p._operations.append(op)
         p._modes |= set(int(m) for m in modes)
     p._parameters = sorted(params, key=str)
+    if p._type["name"] == "tdm":
+        # in a tdm program a string spelt like a p-name IS a reference to a p-array (none is declared here): use other strings
+        def fix(v):
+            if isinstance(v, str) and v[:1] == "p" and v[1:].isdigit():
+                return rng.choice(["", "pz", "p", "q"])
+            if isinstance(v, list):
+                return [fix(x) for x in v]
+            return v
+        for o in p._operations:
+            if "args" in o:
+                o["args"] = [fix(a) for a in o["args"]]
+                o["kwargs"] = {k: fix(v) for k, v in o["kwargs"].items()}
+                if rng.random() < 0.5:
+                    o["args"].append("")
     return p
 
 
@@ -182,6 +196,10 @@ def check(model, impl, p, stats):
     b = json.loads(model.ask("TEXTSKEL", observe.enc(d)))
     if a is None:
         stats["model_serialiser_undefined"] = stats.get("model_serialiser_undefined", 0) + 1
+    elif p.programtype["name"] == "tdm":
+        # re-loading a tdm dump turns the hoisted arrays A<k> into variables, which a second serialisation writes again in the
+        # variable block: the dump is not a fixed point there (by design), only the program is preserved
+        stats["skeleton_skipped_tdm"] = stats.get("skeleton_skipped_tdm", 0) + 1
     elif a != b:
         k = next((i for i, (x, y) in enumerate(zip(a, b or [])) if x != y), min(len(a), len(b or [])))
         return "the serialised script has a different structure than the model serialiser prescribes at item %d: %r vs model %r" % (
